@@ -104,16 +104,20 @@ def frame(ms, neg, cl):
     what = {0: "announced size symbolic over 0..6, whole bogus header received (7, 11 or msize bytes)", 1: "announced size symbolic over msize+1..2^32-1, 5/7/11/msize bytes received", 2: "twin: acceptable frame"}[cl]
     return {"harness": "vxH12Frame", "args": [str(ms), b(neg), str(cl)], "files": F12, "preempt": 1, "reach": ["in-range"] if cl == 2 else ["dropped"],
             "bounds": f"real NewConn, server msize {ms}" + (", negotiated down to 24 by a Tversion first" if neg else "") + f"; one receive step: {what}; all other bytes symbolic"}
-def bound(m, dotu, mw):
-    return {"harness": "vxH12Bound", "args": [str(m), b(dotu), str(mw)], "files": F12, "preempt": 1, "reach": ["sent"],
-            "bounds": f"real NewConn with msize 96, Tversion negotiates {m} ({'9P2000.u' if dotu else '9P2000'}), 0..2 further reply buffers recycled from before the negotiation, "
-                      f"then a Tstat whose Rstat is exactly 96 bytes (name/mode/length symbolic); transport accepts <= {mw} bytes per Write; <= 1 preemption"}
+def bound(m, dotu, mw, pre=0):
+    r = {"harness": "vxH12Bound", "args": [str(m), b(dotu), str(mw), str(pre)], "files": F12, "preempt": 1, "reach": ["sent"],
+            "bounds": f"real NewConn with msize 96, {pre} requests answered before the negotiation (in flight together, so {pre} reply buffers of the old size are recycled), Tversion negotiates {m} ({'9P2000.u' if dotu else '9P2000'}), recycled buffers available or all in use, "
+                      f"then a Tstat whose Rstat is exactly 96 bytes (name/mode/length symbolic); transport accepts <= {mw} bytes per Write; " + ("<= 1 preemption" if pre == 0 else "deterministic schedule")}
+    if pre > 0:
+        r["preempt"] = 0
+        r["free_switches"] = -1
+    return r
 def client(d, k):
     return {"harness": "vxH12Client", "args": [b(d), str(k)], "files": F12, "preempt": 1, "reach": ["connected"],
             "bounds": f"Connect(msize 64, dotu={b(d)}) against a scripted peer answering Rversion with symbolic 32-bit msize and version kind {k} (0 '9P2000', 1 '9P2000.u', 2..4 arbitrary 6..8 bytes)"}
 q12 = [version(k) for k in range(5)]
 q12 += [frame(24, False, 0), frame(24, False, 1), frame(24, False, 2), frame(32, False, 0), frame(32, False, 1), frame(64, True, 0), frame(64, True, 1), frame(64, True, 2)]
-q12 += [bound(32, False, 1000), bound(48, True, 1000), bound(95, False, 7), bound(96, False, 1), bound(96, True, 1000)]
+q12 += [bound(32, False, 1000), bound(48, True, 1000), bound(95, False, 7), bound(96, False, 1), bound(96, True, 1000), bound(48, False, 1000, 3), bound(32, True, 1000, 4), bound(95, True, 7, 2)]
 q12 += [{"harness": "vxH12Dialect", "args": ["1"], "files": F12, "reach": ["rstat", "rerror", "rerror-plain", "done"],
          "bounds": "RespondRstat (all Dir fields symbolic, strings 0..1 bytes, .u fields set in both dialects) / RespondError(*Error with text 0..3 bytes and symbolic number) / RespondError(plain error); connection dialect symbolic"}]
 q12 += [{"harness": "vxH12DialectE2E", "args": [b(s), b(a)], "files": F12, "preempt": 1, "reach": ["done"],
